@@ -46,13 +46,23 @@ pub(crate) fn call(builtin: Builtin, args: &[Object], gc: &mut GC) -> Result<Obj
 fn call_print(args: &[Object]) -> Result<Object, Error> {
     if !args.is_empty() {
         let mut args = args.iter();
-        let mut format_str = args.next().unwrap().to_string();
+        let format_str = args.next().unwrap().to_string();
 
-        for replacement in args {
-            format_str = format_str.replacen("{}", &replacement.to_string(), 1);
+        // Substitute from left to right over the original format string only
+        // (so a "{}" inside a replacement is never substituted itself)
+        let mut output = String::with_capacity(format_str.len());
+        let mut rest = format_str.as_str();
+        while let Some(pos) = rest.find("{}") {
+            let Some(replacement) = args.next() else {
+                break;
+            };
+            output.push_str(&rest[..pos]);
+            output.push_str(&replacement.to_string());
+            rest = &rest[pos + 2..];
         }
+        output.push_str(rest);
 
-        print!("{format_str}");
+        print!("{output}");
     }
 
     println!();
